@@ -5,6 +5,7 @@ set -u
 patch="$(realpath "$1")"; shift
 cd /repo || exit 3
 if [ -n "$(git status --porcelain --untracked-files=no)" ]; then echo "/repo not clean"; exit 3; fi
+trap 'git -C /repo checkout -- .' EXIT TERM INT HUP
 git apply "$patch" || { echo "patch does not apply"; exit 3; }
 cd /verif
 for id in "$@"; do
